@@ -161,12 +161,26 @@ type mwRec struct {
 	over   bool
 	netCtx int // real-transport variant: the context token seen at the transport boundary
 	netID  uint64
+	depth  int // nesting depth of the real adapters (runaway recursion guard)
 }
+
+// enter / leave guard the real adapters against a chain that recurses without end (a stack overflow
+// cannot be recovered; a panic can).
+func (rec *mwRec) enter() {
+	rec.depth++
+	if rec.depth > 4000 {
+		panic("harness: runaway middleware recursion")
+	}
+}
+func (rec *mwRec) leave() { rec.depth-- }
 
 func (rec *mwRec) log(e mwEvent) {
 	rec.events = append(rec.events, e)
 	if rec.budget > 0 && len(rec.events) > rec.budget {
 		rec.over = true
+	}
+	if rec.budget == 0 && len(rec.events) > 1<<20 {
+		panic("harness: runaway middleware trace")
 	}
 }
 
@@ -576,6 +590,8 @@ type mwMsgNext = func(context.Context, *kmip.RequestMessage) (*kmip.ResponseMess
 // to the named continuation type).
 func mwMsgStage(st *mwStage, next mwMsgNext, ctx context.Context, msg *kmip.RequestMessage) (*kmip.ResponseMessage, error) {
 	rec := mwRecOf(ctx)
+	rec.enter()
+	defer rec.leave()
 	m, c := mwReqTok(msg, rec), mwCtxTok(ctx)
 	rec.log(mwEvent{k: 'E', id: st.id, m: m, c: c})
 	var lastResp *kmip.ResponseMessage
@@ -615,6 +631,8 @@ func mwMsgStage(st *mwStage, next mwMsgNext, ctx context.Context, msg *kmip.Requ
 
 func mwItemStage(st *mwStage, next kmipserver.BatchItemNext, ctx context.Context, bi *kmip.RequestBatchItem) (*kmip.ResponseBatchItem, error) {
 	rec := mwRecOf(ctx)
+	rec.enter()
+	defer rec.leave()
 	m, c := mwItemReqTok(bi), mwCtxTok(ctx)
 	rec.log(mwEvent{k: 'E', id: st.id, m: m, c: c})
 	var lastResp *kmip.ResponseBatchItem
@@ -1161,22 +1179,29 @@ func mwRunGroup(ctx *Ctx, g *mwGroup) {
 	// concurrent: 8 goroutines share the chain; every request has its own recorder
 	const workers = 8
 	concurrently := func(realTransport bool) {
-		conc := make([]string, len(g.cases))
+		// every worker runs every request of the group (starting at a different one), so that
+		// workers x len(cases) runs overlap on the one chain
+		conc := make([][]string, workers)
 		var wg sync.WaitGroup
 		for w := 0; w < workers; w++ {
 			wg.Add(1)
+			conc[w] = make([]string, len(g.cases))
 			go func(w int) {
 				defer wg.Done()
-				for i := w; i < len(g.cases); i += workers {
-					conc[i], _, _, _ = ch.run(g.cases[i], true, realTransport)
+				for k := range g.cases {
+					i := (k + w) % len(g.cases)
+					conc[w][i], _, _, _ = ch.run(g.cases[i], true, realTransport)
 				}
 			}(w)
 		}
 		wg.Wait()
 		for i, cs := range g.cases {
-			if conc[i] != seq[i] {
-				ctx.Res.Violate(report.Violation{Property: "C19", Oracle: "concurrent-shared-chain", Key: "mw:" + cs.kind + ":concurrent-run-differs",
-					Detail: "request run concurrently with others on the same chain: " + mwClip(conc[i]) + " ; alone: " + mwClip(seq[i]), Line: cs.line()})
+			for w := 0; w < workers; w++ {
+				if conc[w][i] != seq[i] {
+					ctx.Res.Violate(report.Violation{Property: "C19", Oracle: "concurrent-shared-chain", Key: "mw:" + cs.kind + ":concurrent-run-differs",
+						Detail: "request run concurrently with others on the same chain: " + mwClip(conc[w][i]) + " ; alone: " + mwClip(seq[i]), Line: cs.line()})
+					break
+				}
 			}
 			ctx.Res.Count("mw.concurrent-requests")
 		}
